@@ -7,8 +7,10 @@ import (
 	"context"
 	"database/sql"
 	"fmt"
+	"math/rand"
 	"sort"
 	"strings"
+	"testing"
 	"time"
 
 	"github.com/google/uuid"
@@ -87,10 +89,11 @@ const (
 	opRestart
 	opDeleteSnap
 	opPullAck
+	opChase
 	nOps
 )
 
-var opNames = [...]string{"createTopic", "deleteTopic", "createSub", "deleteSub", "updateSub", "publish", "pull", "ack", "modack", "seekTime", "snapshot", "seekSnap", "advance", "job", "dlSweep", "expirySweep", "setDelay", "fault", "restart", "deleteSnap", "pullAck"}
+var opNames = [...]string{"createTopic", "deleteTopic", "createSub", "deleteSub", "updateSub", "publish", "pull", "ack", "modack", "seekTime", "snapshot", "seekSnap", "advance", "job", "dlSweep", "expirySweep", "setDelay", "fault", "restart", "deleteSnap", "pullAck", "chase"}
 
 func baseWeights() []int {
 	w := make([]int, nOps)
@@ -115,6 +118,7 @@ func baseWeights() []int {
 	w[opRestart] = 0
 	w[opDeleteSnap] = 1
 	w[opPullAck] = 6
+	w[opChase] = 0
 	return w
 }
 
@@ -141,6 +145,7 @@ func (r *Run) configure() {
 		w[opPullAck] *= 2
 		w[opModAck] *= 2
 	case "retry":
+		w[opChase] = 5
 		w[opPublish] /= 2
 		w[opAdvance] *= 2
 		w[opPull] *= 2
@@ -439,6 +444,8 @@ func (r *Run) step() *Violation {
 		return r.doExpirySweep(1000)
 	case opSetDelay:
 		return r.doSetDelay(t.Intn(r.nSubs))
+	case opChase:
+		return r.doChase()
 	case opFault:
 		r.doArmFault()
 		return nil
@@ -1428,7 +1435,7 @@ func (r *Run) fixpoint() *Violation {
 	for round := 0; round < rounds; round++ {
 		deleted := 0
 		lastErrs = nil
-		order := []int{0, 1, 2, 3, 4, 5}
+		order := []int{0, 1, 2, 3, 4, 5, 6} // all seven maintenance jobs, expiry included
 		// tape-chosen order
 		for i := len(order) - 1; i > 0; i-- {
 			j := r.T.Intn(i + 1)
@@ -1524,7 +1531,8 @@ func RunHist(r *Run, steps int) *Violation {
 	if v := r.drain(); v != nil {
 		return v
 	}
-	if r.Variant == "prune" || r.jobsOn {
+	r.cev("---- end of client-visible history")
+	if (r.Variant == "prune" || r.jobsOn) && !r.skipJobs {
 		if v := r.fixpoint(); v != nil {
 			return v
 		}
@@ -1568,4 +1576,104 @@ func (r *Run) nudge(window time.Duration) {
 		time.Sleep(latest.Sub(now) + time.Millisecond + 7*time.Microsecond)
 		r.Sim.Settle()
 	}
+}
+
+// runPaired (C15 oracle 2): the same tape is executed twice, with the prune jobs and with
+// the job frames consumed but not executed (the clock is moved by exactly the time each job
+// took, so both runs see identical clocks at every client operation). Pulls ask for more than
+// the backlog, seeks are excluded: the client-visible traces must be identical.
+func runPaired(t *testing.T, tape *Tape, w *World, variant string, steps int, out *runOutcome) {
+	a := &Run{T: tape, W: w, M: NewModel(), Sim: S, Variant: "prune", Stats: map[string]int{}, Hashes: map[uint64]bool{}}
+	a.M.KnownSigs = knownSigs
+	uuidSeed := int64(tape.Intn(1 << 30))
+	uuid.SetRand(rand.New(rand.NewSource(uuidSeed)))
+	va := RunHist(a, steps)
+	out.trace, out.stats, out.probes, out.hashes, out.header = a.Trace, a.Stats, a.M.Probes, a.Hashes, a.header
+	out.sample = sampleOf(a.Trace)
+	if va != nil {
+		out.v = va
+		return
+	}
+	if a.Stats["job_deleted_something"] == 0 {
+		a.Stats["paired_trivial"]++
+		return
+	}
+	w2, err := NewWorld(w.dir, 1)
+	if err != nil {
+		panic("HARNESS: world: " + err.Error())
+	}
+	defer w2.Close()
+	uuid.SetRand(rand.New(rand.NewSource(uuidSeed)))
+	b := &Run{T: ReplayTape(tape.Frames()), W: w2, M: NewModel(), Sim: S, Variant: "prune", Stats: map[string]int{}, Hashes: map[uint64]bool{}}
+	b.M.KnownSigs = knownSigs
+	b.skipJobs, b.jobDur = true, a.jobDur
+	if vb := RunHist(b, steps); vb != nil {
+		out.v = viol("C15", "unspliced_run_differs", "the same history without the prune jobs violates the model although the spliced one did not: %v", vb)
+		out.trace = append(out.trace, "==== run without jobs")
+		out.trace = append(out.trace, b.Trace...)
+		return
+	}
+	ca, cb := a.CTrace, b.CTrace
+	for i := 0; i < len(ca) && i < len(cb); i++ {
+		if ca[i] != cb[i] {
+			out.v = viol("C15", "paired_trace", "client-visible traces diverge at event %d: with prune jobs %q, without %q", i, ca[i], cb[i])
+			return
+		}
+		if ca[i] == "---- end of client-visible history" {
+			break
+		}
+	}
+	a.Stats["paired_compared"]++
+}
+
+func init() { engines["paired"] = runPaired }
+
+// doChase follows one outstanding delivery through many redeliveries: advance to just before
+// its lease lower bound (must not be offered), then past the upper bound (must be offered),
+// again and again, so that high attempt numbers (saturation at maxBackoff) are reached.
+func (r *Run) doChase() *Violation {
+	t := r.T
+	var cands []*ED
+	for _, s := range r.M.AllSubs {
+		if !s.Live || s.Cfg.fullDL() {
+			continue
+		}
+		for _, e := range s.EDs {
+			if e.State == stOut && !e.Fuzzy && e.Seen > 0 && e.mustAlive(time.Now().Add(24*time.Hour)) {
+				cands = append(cands, e)
+			}
+		}
+	}
+	if len(cands) == 0 {
+		return nil
+	}
+	e := cands[t.Intn(len(cands))]
+	rounds := 3 + t.Intn(48)
+	r.ev("chase m%d on %s for %d rounds", e.Msg.Seq, e.Sub.Name, rounds)
+	for k := 0; k < rounds; k++ {
+		if e.State != stOut || e.Fuzzy || !e.Sub.Live {
+			return nil
+		}
+		now := time.Now()
+		if !e.mustAlive(now.Add(e.LeaseHi.Sub(now) + time.Hour)) {
+			return nil
+		}
+		if t.Bool(30) && e.LeaseLo.Sub(now) > 30*time.Millisecond {
+			time.Sleep(e.LeaseLo.Sub(now) - 11*time.Millisecond)
+			r.Sim.Settle()
+			if v := r.pullSub(e.Sub, false); v != nil {
+				return v
+			}
+			now = time.Now()
+		}
+		if d := e.LeaseHi.Sub(now) + 11*time.Millisecond; d > 0 {
+			time.Sleep(d)
+			r.Sim.Settle()
+		}
+		if v := r.pullSub(e.Sub, false); v != nil {
+			return v
+		}
+		r.M.probe("chase_round")
+	}
+	return nil
 }
